@@ -75,7 +75,7 @@ func C18(c *core.Ctx) {
 			var edges []string
 			okCost := true
 			phi, isPhi := cost.(*ssa.Phi)
-			check := func(v ssa.Value, pred *ssa.BasicBlock) {
+			check := func(v ssa.Value, pred, join *ssa.BasicBlock) {
 				v = core.Strip(v)
 				if isInf(v) {
 					edges = append(edges, "infinity")
@@ -101,6 +101,15 @@ func C18(c *core.Ctx) {
 					return
 				}
 				edges = append(edges, "entry."+fld+"+1")
+				if fld == "Cost" && pred != nil && join != nil {
+					// poison reverse: the advertised cost is never used on a path asserting
+					// that the advertised next hop is this router
+					cut, per := core.CutEdges(ru, neg(isSelf))
+					if per[0] > 0 && !cut[core.Edge{From: pred, To: join}] && core.ReachAvoiding(ru, ru.Blocks[0], map[*ssa.BasicBlock]bool{pred: true}, cut) != nil {
+						okCost = false
+						edges = append(edges, "(entry.Cost used although the advertised next hop is this router: no poison reverse)")
+					}
+				}
 				if fld == "OtherCost" && pred != nil {
 					// only under next-hop-is-self ∧ OtherCost < infinity
 					for _, a := range []*core.Atom{isSelf, otherFinite} {
@@ -124,12 +133,12 @@ func C18(c *core.Ctx) {
 							walk(p2, seen)
 							continue
 						}
-						check(e, ph.Block().Preds[i])
+						check(e, ph.Block().Preds[i], ph.Block())
 					}
 				}
 				walk(phi, map[*ssa.Phi]bool{})
 			} else {
-				check(cost, nil)
+				check(cost, nil, nil)
 			}
 			hasCost, hasOther := false, false
 			for _, e := range edges {
@@ -298,4 +307,55 @@ func C18(c *core.Ctx) {
 		})
 		c.Decide(demote, "R18.4", "previous-best-becomes-second", p.Pos(rf.Pos()), "when a new best is found the previous best becomes second best", "RibEntry.refresh loses the previous best when a better next hop is found (second-best cost/poison-reverse information is wrong)")
 	}
+	// ---- R18.5 every change of an entry's cost column is followed by refresh() of that
+	// entry (or marks it dirty for Prune) before the next entry is visited or the
+	// function returns: best / second best are never left stale
+	nW := 0
+	for _, fn := range p.FuncsIn(core.ModPath + "/dv/table") {
+		if strings.HasSuffix(p.File(fn.Pos()), "_test.go") {
+			continue
+		}
+		core.Instrs(fn, func(in ssa.Instruction) {
+			var m ssa.Value
+			if mu, ok := in.(*ssa.MapUpdate); ok {
+				m = mu.Map
+			} else if cl, ok := isBuiltinCall(in, "delete"); ok {
+				m = cl.Call.Args[0]
+			} else {
+				return
+			}
+			ent, ok := core.FieldOf(m, "costs")
+			if !ok || !isNamed(core.Deref(ent.Type()), "RibEntry") || isFreshObject(ent) {
+				return
+			}
+			nW++
+			fname := core.FuncName(fn)
+			c.Funcs[fname] = true
+			isB := func(x ssa.Instruction) bool {
+				if ci, ok := x.(ssa.CallInstruction); ok {
+					if id, ok := core.Callee(ci.Common()); ok && id.Pkg == "dv/table" && id.Recv == "RibEntry" && id.Name == "refresh" {
+						r, _ := core.CallArgs(ci.Common())
+						return core.Same(r, ent)
+					}
+				}
+				if fa, v, ok := storeToField(x, "RibEntry", "dirty"); ok && core.Same(fa.X, ent) {
+					b, isC := core.ConstBool(v)
+					return isC && b
+				}
+				return false
+			}
+			var ok2 bool
+			if h := loopHeader(in.Block()); h == nil {
+				ok2 = core.MustFollow(fn, core.After(in), isB, nil).OK
+			} else {
+				// per iteration: neither the next iteration nor an exit of the loop is
+				// reached from the write without passing the refresh
+				ok2 = core.ReachInstrFrom(core.After(in), h.Instrs[0], nil, isB) == nil &&
+					core.MustFollow(fn, core.After(in), isB, func(x ssa.Instruction) bool { return x == h.Instrs[0] }).OK
+			}
+			c.Decide(ok2, "R18.5", "cost-write-refreshed:"+fname, c.Pos(in), "the entry is refreshed (or marked dirty) on every path after its cost column changes", fname+" changes an entry's cost column and can move on without refreshing that entry: its best / second-best cost and next hop stay stale, so unreachable destinations keep a finite cost in the RIB and in advertisements")
+		})
+	}
+	c.Floor("R18.5", "writes to RibEntry.costs", nW, 3)
+
 }
